@@ -31,6 +31,10 @@ CHECKS = {
                 assumptions=["keeper-level (E3): messages go through the real router and msg servers on cache contexts of one prepared app; block height is moved on the context (no begin/end blockers are involved in vesting)",
                              "one owner; vesting-info parameters are changed only to values MsgUpdateVestingInfo.ValidateBasic admits"],
                 rule="rapid-generated op sequences (vest / claim / cancel / vest-now / advance k blocks / governance change of length, max vestings, factor) executed on the real commitment msg servers and on a reference model, compared after every op; non-trivial = sequence containing claim -> cancel -> claim with the last claim strictly inside a schedule; distinct by op sequence"),
+    "C16": dict(tests=[dict(func="TestC16", quick=dict(checks=16000, shards=16, timeout=900), thorough=dict(checks=400000, shards=16, timeout=7000))],
+                assumptions=["keeper-level (E3): real oracle msg servers through the app's router and the real EndBlock on cache contexts of one prepared app",
+                             "asset and source names come from a hand-built colliding alphabet; band IBC callbacks are not generated"],
+                rule="rapid-generated op sequences (feeds by feeders and non-feeders, feeder (de)activation/removal, governance-only messages by gov and by others, asset infos, parameter changes, end-blocks with time gaps, lookups) against a reference map of live prices; every asset of the alphabet is looked up after every end-block; non-trivial = a lookup of an asset with no live price of its own while a key that collides with its prefix is live; distinct by op sequence"),
     "C15": dict(tests=[e1("TestC15", "everything")], assumptions=E1_ASSUME,
                 rule=E1_RULE + ">=30 successful txs from >=5 modules and >=1 gap >= 1 day (epoch boundary)"),
     "C04": dict(tests=[e1("TestC04", "swap-batch")], assumptions=E1_ASSUME + ["requesters submit only swap requests in a block and their recipients are themselves or passive accounts, so balance changes are attributable"],
